@@ -38,6 +38,7 @@ import (
 	"k8s.io/apimachinery/pkg/types"
 	"sigs.k8s.io/controller-runtime/pkg/client"
 	"sigs.k8s.io/controller-runtime/pkg/client/interceptor"
+	"sigs.k8s.io/controller-runtime/pkg/controller/controllerutil"
 
 	v1 "sigs.k8s.io/karpenter/pkg/apis/v1"
 	"sigs.k8s.io/karpenter/pkg/cloudprovider"
@@ -124,6 +125,8 @@ func (s step) String() string {
 		return fmt.Sprintf("R%d~%d", s.C, s.Stale)
 	case "K":
 		return fmt.Sprintf("K%d:%s", s.C, s.Act)
+	case "X":
+		return fmt.Sprintf("X%d:external-delete", s.C)
 	}
 	return fmt.Sprintf("T+%s", s.Dur)
 }
@@ -324,6 +327,11 @@ func genScript(rng *rand.Rand, n int, probe bool) []step {
 				l = append(l, recon(c))
 			}
 		}
+		if !probe && rng.Intn(10) == 0 {
+			// the NodeClaim is deleted by someone else before its first reconcile has stored the finalizer (it vanishes at
+			// once); the informer cache still serves the version from before the delete
+			l = append(l, step{Op: "X", C: c}, step{Op: "R", C: c, Stale: 1})
+		}
 		add(2 + rng.Intn(2))
 		acts := []string{"ready", "rm-startup", "rm-ephemeral", "report-ext"}
 		rng.Shuffle(len(acts), func(i, j int) { acts[i], acts[j] = acts[j], acts[i] })
@@ -390,6 +398,15 @@ func sameContent(a, b *v1.NodeClaim) bool {
 	ac.ResourceVersion, bc.ResourceVersion = "", ""
 	ac.ManagedFields, bc.ManagedFields = nil, nil
 	return fmt.Sprintf("%v", ac) == fmt.Sprintf("%v", bc)
+}
+
+func (c *claimState) finalizerEverStored() bool {
+	for _, v := range c.versions {
+		if v != nil && controllerutil.ContainsFinalizer(v, v1.TerminationFinalizer) {
+			return true
+		}
+	}
+	return false
 }
 
 func (c *claimState) addVersion(nc *v1.NodeClaim) {
@@ -829,6 +846,9 @@ func (x *exec) reconcile(cs *claimState, stale int) {
 		x.r.Inc("provider_create_calls")
 		// M2
 		switch {
+		case c.HadFinalizerInStore == nil && !cs.finalizerEverStored():
+			// the NodeClaim is gone and never carried the finalizer: nothing will ever clean this instance up
+			x.violate("create-before-finalizer-stored", fmt.Sprintf("provider Create for NodeClaim %s was called although no stored version of it ever carried the termination finalizer (the object is gone)", c.ClaimName), c)
 		case c.HadFinalizerInStore == nil:
 			x.r.Inc("diag_create_for_absent_claim")
 		case !*c.HadFinalizerInStore:
@@ -1099,6 +1119,14 @@ func execute(r *mon.Report, sc scen, f *faultSpec) *exec {
 			}
 		case "R":
 			x.reconcile(x.claims[st.C], st.Stale)
+		case "X":
+			cs := x.claims[st.C]
+			if nc := x.stored(cs.name); nc != nil {
+				_ = e.API.Raw.Delete(context.Background(), nc)
+				cs.addVersion(x.stored(cs.name))
+				x.r.Inc("external_deletes_before_first_reconcile")
+				x.sig["external-delete"] = true
+			}
 		}
 	}
 	// closing phase: fault-free (a one-shot fault that has not fired yet may still fire here), bounded
@@ -1264,7 +1292,7 @@ func run(r *mon.Report, tier string, idx int, rng *rand.Rand) {
 		}
 	}
 	r.Count("fault_free_write_calls_Kw", len(writes))
-	kinds := []string{"500", "409"}
+	kinds := []string{"500", "409", "404"}
 	targets, writesOnly := writes, true
 	if tier == "thorough" {
 		kinds = []string{"500", "409", "404", "429", "timeout"}
@@ -1297,7 +1325,7 @@ func run(r *mon.Report, tier string, idx int, rng *rand.Rand) {
 func init() {
 	reg.Register(&reg.Prop{
 		ID: "C14", Level: "fault_enumeration",
-		Rule:  "each case = generated scenario: world (catalog incl. an extended-resource type, 1-2 NodePools with taints / 0-2 startup taints, 0-1 daemonset) + 1-3 pending pods (half request verif.io/gpu, host-port conflicts force several claims) -> NodeClaims through the real Provisioner.Schedule/Create; per claim a provider error plan {none, generic x1/x2, CreateError, ICE sticky/once, NodeClassNotReady sticky/once} and a kubelet plan (register with/without unregistered taint, not-ready/unreachable/uninitialized taints, zeroed extended resources, Ready at once or later); PRNG-interleaved script of lifecycle reconciles (32% on a monotonically stale snapshot up to 3 stored versions old, 8% on a cache that did not advance at all since the claim's previous reconcile), kubelet steps {register, ready, remove startup taints, remove ephemeral taints, report extended resources} in every order, clock steps; run once fault-free (K calls enumerated), then once per (error kind, call k) [quick: 500, 409 on every API write and provider call; thorough: 500, 409, 404, 429, timeout on every call incl. reads], once per crash point k (CrashSentinel at write k, recovered at the reconcile boundary, Env.Restart()), once per lost response k (API write k applied, caller told it timed out), each followed by <=12 fault-free closing rounds of {kubelet fix-up, fresh reconcile}; plus one probe run outside the quantifier (NotReady flaps, 55% non-advancing cache) whose True->Unknown regressions are diagnostics only. One evaluation = one run. Non-trivial = a monitor antecedent fired; distinct by (fault kind x faulted call x antecedents/features seen).",
+		Rule:  "each case = generated scenario: world (catalog incl. an extended-resource type, 1-2 NodePools with taints / 0-2 startup taints, 0-1 daemonset) + 1-3 pending pods (half request verif.io/gpu, host-port conflicts force several claims) -> NodeClaims through the real Provisioner.Schedule/Create; per claim a provider error plan {none, generic x1/x2, CreateError, ICE sticky/once, NodeClassNotReady sticky/once} and a kubelet plan (register with/without unregistered taint, not-ready/unreachable/uninitialized taints, zeroed extended resources, Ready at once or later); PRNG-interleaved script of lifecycle reconciles (32% on a monotonically stale snapshot up to 3 stored versions old, 8% on a cache that did not advance at all since the claim's previous reconcile), kubelet steps {register, ready, remove startup taints, remove ephemeral taints, report extended resources} in every order, clock steps, for one claim in ten an external delete before its first reconcile followed by a reconcile of the cached pre-delete copy; run once fault-free (K calls enumerated), then once per (error kind, call k) [quick: 500, 409, 404 on every API write and provider call; thorough: 500, 409, 404, 429, timeout on every call incl. reads], once per crash point k (CrashSentinel at write k, recovered at the reconcile boundary, Env.Restart()), once per lost response k (API write k applied, caller told it timed out), each followed by <=12 fault-free closing rounds of {kubelet fix-up, fresh reconcile}; plus one probe run outside the quantifier (NotReady flaps, 55% non-advancing cache) whose True->Unknown regressions are diagnostics only. One evaluation = one run. Non-trivial = a monitor antecedent fired; distinct by (fault kind x faulted call x antecedents/features seen).",
 		Cases: cases, Run: run,
 		MinObserved: map[string]int{
 			"provider_create_success":                                             50,
